@@ -940,6 +940,11 @@ pub fn explore_chunkings(stream: &[u8], restrict: Option<&[usize]>) -> ChunkResu
         return ChunkResult { states: 1, transitions: 0, calls, violation: None };
     }
     while head < states.len() {
+        if states.len() > 400_000 {
+            // cannot happen while deliveries are prefixes of the one-shot delivery (<= n(n+1)/2 states);
+            // kept as a safety net so that a run always ends
+            break;
+        }
         let st = states[head].clone();
         let remaining = n - st.fed;
         let ks: Vec<usize> = match restrict {
@@ -1104,6 +1109,16 @@ pub fn c06(ctx: &Ctx) -> (Report, Meta) {
     let mut s2 = big.clone();
     s2.extend_from_slice(&big[..700]);
     c06_one(&mut rep, &s2, Some(&restrict), &|| json!("maxframe + truncated maxframe, restricted chunk sizes"));
+    // a stream longer than 64 KiB (3000 copies of the 1005 frame = 75 000 bytes), chunk sizes around 2^16
+    {
+        let f1005 = unhex("D300133ED7D30202980EDEEF34B4BD62AC0941986F33360B98");
+        let mut s3: Vec<u8> = Vec::with_capacity(75_000);
+        for _ in 0..3000 {
+            s3.extend_from_slice(&f1005);
+        }
+        let r = [1000usize, 9_000, 65_535, 65_536, 65_537, 70_000];
+        c06_one(&mut rep, &s3, Some(&r), &|| json!("3000 x 1005 frame (75 000 bytes), chunk sizes {1000, 9000, 65535, 65536, 65537, 70000, rest}"));
+    }
     rep.distinct_nontrivial = rep.extra.get("streams").and_then(|x| x.as_u64()).unwrap_or(0);
     rep.sample(json!({"tokens":["1005","L0"],"chunkings":"all 2^30","state":"(consumed, fed, delivered count, delivered digest)"}));
     rep.sample(json!({"stream": hex(&s1[..12]), "len": s1.len(), "chunk_sizes": restrict}));
@@ -1177,14 +1192,39 @@ pub fn c13(ctx: &Ctx) -> (Report, Meta) {
             }
         }
         watch_enter(0x1300_0000 + l as u64);
-        for p in &payloads {
-            let f = make_frame(p);
+        // (payload, reserved header bits): reserved bits are set for a few lengths, with suffixes whose
+        // length is a multiple of 1024 around the value the reserved bits would add to the length field
+        let mut frames: Vec<(Vec<u8>, u8)> = payloads.iter().map(|p| (p.clone(), 0u8)).collect();
+        if l <= 2 || l == 19 || l == 1000 {
+            for r in [1u8, 2, 21, 63] {
+                frames.push((payloads[0].clone(), r));
+            }
+            for r in [1usize, 2, 3] {
+                for d in [-1i64, 0, 1, 100] {
+                    let n = (1024 * r) as i64 + d;
+                    suffixes.push(vec![0x11u8; n as usize]);
+                }
+            }
+        }
+        for (p, rbits) in &frames {
+            let f = make_frame_r(p, *rbits);
             rep.states += 1;
             let base = catch(|| attrs(&f));
             let base = match base {
                 Ok(Ok(b)) => b,
                 Ok(Err(e)) => {
-                    rep.violation("C13", format!("valid-frame-rejected:{}", e), format!("valid frame L={} rejected: {}", l, e), l as u64, json!({"kind":"suffix","frame":hex(&f),"suffix":""}));
+                    // rejecting a valid frame outright is C03's business; C13's is whether the verdict
+                    // depends on what follows the frame
+                    for sfx in &suffixes {
+                        let mut g = f.clone();
+                        g.extend_from_slice(sfx);
+                        rep.transitions += 1;
+                        if let Ok(Ok(_)) = catch(|| attrs(&g)) {
+                            rep.violation("C13", format!("acceptance-depends-on-suffix:{}", e), format!("frame with L={} (reserved bits {:#x}) is rejected ({}) on its own but accepted when {} byte(s) follow it", l, rbits, e, sfx.len()), (l * 100 + sfx.len()) as u64, json!({"kind":"suffix","frame":hex(&f),"suffix":hex(sfx)}));
+                            break;
+                        }
+                    }
+                    rep.outcome("valid-frame-rejected-alone(judged by C03)");
                     continue;
                 }
                 Err(pn) => {
